@@ -27,7 +27,7 @@ from .. import core
 
 QUERIES = {
     # (no descendant segment here: on the "deep" document class those raise at evaluation time, see "evalerr")
-    "valid": ["$.a", "$.k[?@.a == 'é' || @.a > 1]", "$[*]", "$.*[?match(@.a, '.*b')]", "$.k[0,0]", "$.nope", "$.k[*].a"],
+    "valid": ["$.a", "$.k[?@.a == 'é' || @.a > 1]", "$[*]", "$.*[?match(@.a, '.*b')]", "$.k[0,0]", "$.nope", "$.k[*].a", "$", "$[?@]"],
     "syntax": ["$.k[?@.a ==]", "$[", "$.k.", "$.k[?!!@.a]", "", " ", "\n"],
     "type": ["$.k[?count(@.a, 'x')]", "$.k[?length(@.*) == 1]", "$.k[?match(@.a, 'b') == true]"],
     "name": ["$.k[?nosuch(@.a)]"],
@@ -44,7 +44,9 @@ def deep_doc(n):
 
 
 DOCS = {
-    "ascii": [{"k": [{"a": 1}, {"a": 2, "b": "xb"}, {"a": "ab"}], "a": [1, 2.5, None, True], "s": "b"}, [1, "ab", {"a": [{"a": 3}]}]],
+    "ascii": [{"k": [{"a": 1}, {"a": 2, "b": "xb"}, {"a": "ab"}], "a": [1, 2.5, None, True], "s": "b"}, [1, "ab", {"a": [{"a": 3}]}],
+              # any JSON value is a document: empty containers and scalars at the top level
+              b"[]", b"{}", b"0", b"false", b"null", b'""', b"0.0", b"[0]", b'"ab"', b"true", b" [ ] "],
     "nonascii": [{"k": [{"a": "é"}, {"a": "😀b"}, {"a": 7}], "a": "ü ", "ñ": {"a": "b"}},
                  # valid JSON may carry an unpaired surrogate escape
                  b'{"k": [{"a": "x\\ud83dy"}, {"a": "\\u00e9"}], "a": "\\udc00b"}'],
@@ -185,6 +187,29 @@ def run(chk: core.Check, tier: str, seed: int) -> None:
                            "document_class": c["d"], "model": {k2: g[k2] for k2 in ("out", "err", "status")},
                            "observed": {"status": status, "stdout": written[:300], "stderr": err[-600:], "traceback": tb},
                            "problems": problems, "subprocess": use_sub})
+    # every (valid query, ascii document) pair under the plainest configuration (the seeded choice above covers the
+    # configurations, not the pairs)
+    plain = next(g for g in gens if g["cfg"]["q"] == "valid" and g["cfg"]["d"] == "ascii" and g["cfg"]["qsrc"] == "inline"
+                 and g["cfg"]["dsrc"] == "stdin" and g["cfg"]["sink"] == "stdout" and not g["cfg"]["pretty"] and not g["cfg"]["debug"])
+    for q in QUERIES["valid"]:
+        for doc in DOCS["ascii"]:
+            raw = doc_bytes("ascii", doc, rng)
+            status, out, err, tb = run_inprocess(jp, ["-q", q], raw)
+            chk.evaluations += 1
+            problems = []
+            if status != 0 or tb or err.strip():
+                problems.append(f"exit status {status} / stderr not empty")
+            else:
+                try:
+                    if not core.kind_strict_equal(json.loads(out), expected_values(jp, q, raw)):
+                        problems.append("output is not find(q, doc).values()")
+                except Exception as e:  # noqa: BLE001
+                    problems.append(f"output does not decode as JSON: {type(e).__name__}")
+            if problems:
+                chk.violation({"clause": problems[0][:60], "qclass": "valid", "dclass": "ascii", "debug": False},
+                              {"config": plain["cfg"], "query": q, "document": raw.decode("utf-8", "replace"), "argv": ["-q", q],
+                               "model": {k2: plain[k2] for k2 in ("out", "err", "status")},
+                               "observed": {"status": status, "stdout": out[:300], "stderr": err[-600:], "traceback": tb}, "problems": problems})
     chk.traces += len(gens)
     chk.notes["subprocess_runs"] = n_sub
     chk.sample({"config": gens[17]["cfg"], "model": {k2: gens[17][k2] for k2 in ("out", "err", "status")}})
